@@ -12,6 +12,9 @@
 //     is untouched.
 //   try_recv_internal(cursor k): Ok(the value at index t_k) iff t_k < h, advancing ONLY cursor k by one (each receiver
 //     gets every value once, in order); otherwise Empty, or Disconnected once the producer is gone and the view is drained.
+// MEASURED: every try_send_internal step dies within 3 min at 24 GB (the slot's `Mutex<Vec<Waker>>` is drained with
+// `guard.drain(..).collect()` - Vec::drain shifts the tail with an overlapping copy, the construct that also broke the
+// Vec-backed deque stand-in): tier=probe.  The try_recv steps discharge in seconds and are registered under C04.
 use super::*;
 use crate::verif_k_stubs::*;
 
@@ -123,7 +126,7 @@ fn step_try_recv(cap: usize, nt: usize, producer_gone: bool) {
   kani::cover!(true, "END");
 }
 
-// @obligation id=spmc.try_send.c1t1 props=C07,C03,C09 kind=step tier=quick bound="capacity 1, 1 receiver cursor(s); head any value <= 2^40 (every lap), cursors anywhere in [head-capacity, head]"
+// @obligation id=spmc.try_send.c1t1 props=C07,C03,C09 kind=step tier=probe bound="capacity 1, 1 receiver cursor(s); head any value <= 2^40 (every lap), cursors anywhere in [head-capacity, head]"
 #[kani::proof]
 #[kani::stub(std::thread::current::current, crate::verif_k_stubs::stub_thread_current)]
 #[kani::stub(parking_lot::RawMutex::lock_slow, crate::verif_k_stubs::stub_lock_slow)]
@@ -131,7 +134,7 @@ fn step_try_recv(cap: usize, nt: usize, producer_gone: bool) {
 #[kani::unwind(5)]
 fn ob_spmc_try_send_c1t1() { step_try_send(1, 1); }
 
-// @obligation id=spmc.try_send.c2t2 props=C07,C03,C09 kind=step tier=quick bound="capacity 2, 2 receiver cursor(s); head any value <= 2^40 (every lap), cursors anywhere in [head-capacity, head]"
+// @obligation id=spmc.try_send.c2t2 props=C07,C03,C09 kind=step tier=probe bound="capacity 2, 2 receiver cursor(s); head any value <= 2^40 (every lap), cursors anywhere in [head-capacity, head]"
 #[kani::proof]
 #[kani::stub(std::thread::current::current, crate::verif_k_stubs::stub_thread_current)]
 #[kani::stub(parking_lot::RawMutex::lock_slow, crate::verif_k_stubs::stub_lock_slow)]
@@ -139,7 +142,7 @@ fn ob_spmc_try_send_c1t1() { step_try_send(1, 1); }
 #[kani::unwind(5)]
 fn ob_spmc_try_send_c2t2() { step_try_send(2, 2); }
 
-// @obligation id=spmc.try_send.c3t1 props=C07,C03,C09 kind=step tier=quick bound="capacity 3, 1 receiver cursor(s); head any value <= 2^40 (every lap), cursors anywhere in [head-capacity, head]"
+// @obligation id=spmc.try_send.c3t1 props=C07,C03,C09 kind=step tier=probe bound="capacity 3, 1 receiver cursor(s); head any value <= 2^40 (every lap), cursors anywhere in [head-capacity, head]"
 #[kani::proof]
 #[kani::stub(std::thread::current::current, crate::verif_k_stubs::stub_thread_current)]
 #[kani::stub(parking_lot::RawMutex::lock_slow, crate::verif_k_stubs::stub_lock_slow)]
@@ -147,7 +150,7 @@ fn ob_spmc_try_send_c2t2() { step_try_send(2, 2); }
 #[kani::unwind(5)]
 fn ob_spmc_try_send_c3t1() { step_try_send(3, 1); }
 
-// @obligation id=spmc.try_send.c3t2 props=C07,C03,C09 kind=step tier=thorough bound="capacity 3, 2 receiver cursor(s); head any value <= 2^40 (every lap), cursors anywhere in [head-capacity, head]"
+// @obligation id=spmc.try_send.c3t2 props=C07,C03,C09 kind=step tier=probe bound="capacity 3, 2 receiver cursor(s); head any value <= 2^40 (every lap), cursors anywhere in [head-capacity, head]"
 #[kani::proof]
 #[kani::stub(std::thread::current::current, crate::verif_k_stubs::stub_thread_current)]
 #[kani::stub(parking_lot::RawMutex::lock_slow, crate::verif_k_stubs::stub_lock_slow)]
@@ -155,7 +158,7 @@ fn ob_spmc_try_send_c3t1() { step_try_send(3, 1); }
 #[kani::unwind(5)]
 fn ob_spmc_try_send_c3t2() { step_try_send(3, 2); }
 
-// @obligation id=spmc.try_send.c2t0 props=C07,C03,C09 kind=step tier=quick bound="capacity 2, 0 receiver cursor(s); head any value <= 2^40 (every lap), cursors anywhere in [head-capacity, head]"
+// @obligation id=spmc.try_send.c2t0 props=C07,C03,C09 kind=step tier=probe bound="capacity 2, 0 receiver cursor(s); head any value <= 2^40 (every lap), cursors anywhere in [head-capacity, head]"
 #[kani::proof]
 #[kani::stub(std::thread::current::current, crate::verif_k_stubs::stub_thread_current)]
 #[kani::stub(parking_lot::RawMutex::lock_slow, crate::verif_k_stubs::stub_lock_slow)]
